@@ -63,9 +63,19 @@ where
 
     fn call(&mut self, req: http::request::Parts) -> Self::Future {
         let config = self.config.clone();
-        let Some(host) = req.uri.host().map(String::from) else {
+        // `Uri::host` keeps the brackets of an IPv6 literal, a server name does not have them.
+        let Some(host) = req
+            .uri
+            .host()
+            .map(|host| host.trim_start_matches('[').trim_end_matches(']').to_owned())
+        else {
             return future::TlsConnectionFuture::error(TlsConnectionError::NoDomain);
         };
+
+        // Not every host which is valid in a URI is a valid TLS server name.
+        if rustls::pki_types::ServerName::try_from(host.as_str()).is_err() {
+            return future::TlsConnectionFuture::error(TlsConnectionError::InvalidServerName(host));
+        }
 
         let future = self.transport.connect(req);
 
